@@ -62,6 +62,17 @@ def rand_program(rng, nc, depth):
     return {"z0": z0, "a": a, "script": script, "depth": depth, "dz": dz, "da": da}
 
 
+def rand_program_u(rng, nc):
+    """depth-1 program whose source rank is declared uncompressed: every coordinate of the shape is offered"""
+    z0 = rand_tree(rng, nc, 1)
+    a = rand_tree(rng, nc, 1, pz=0.2, pabs=0.4)
+    script = []
+    for c in range(nc):
+        ch = rng.choice(["leave", "assign", "accum", "zero"])
+        script.append({"p": [c], "ch": ch, "v": rng.randint(1, 2) if ch in ("assign", "accum") else 0})
+    return {"z0": z0, "a": a, "script": script, "depth": 1, "dz": 0, "da": 0, "au": 1, "ash": nc}
+
+
 def rand_program_touch(rng, nc, depth):
     """programs whose bodies also create paths below an offered sub-fiber without writing (for C01 / C02)"""
     pr = rand_program(rng, nc, depth)
@@ -125,6 +136,8 @@ def programs(ctx):
         progs.append(rand_program(ctx.rng, 2, 3))
     for _ in range(n3):
         progs.append(rand_program(ctx.rng, 4, ctx.rng.choice([1, 2])))
+    for _ in range(n3):
+        progs.append(rand_program_u(ctx.rng, 4))
     return progs, design, states
 
 
@@ -146,7 +159,7 @@ def run_programs(ctx, prop, progs, embs=("fiber", "tensor")):
 
 def classify(lg):
     d = lg["depth"]
-    return f"{lg['emb']}:depth{d}" + (":nonzero-default" if lg.get("dz") or lg.get("da") else "")
+    return f"{lg['emb']}:depth{d}" + (":nonzero-default" if lg.get("dz") or lg.get("da") else "") + (":source-U" if lg.get("au") else "")
 
 
 def run(ctx):
@@ -163,7 +176,7 @@ def run(ctx):
         for (_, cl) in v["fails"]:
             clauses[cl] = clauses.get(cl, 0) + 1
             rec = {"clause": cl, "op": "populate", "where": classify(lg), "step": 1, "detail": {"exc": lg["exc"], "script": lg["script"]},
-                   "behaviour": {k: lg[k] for k in ("z0", "a", "script", "depth", "emb", "dz", "da")}}
+                   "behaviour": {k: lg[k] for k in ("z0", "a", "script", "depth", "emb", "dz", "da", "au", "ash")}}
             if cl.startswith("P:C05:"):
                 violations.append(rec)
             else:
